@@ -25,6 +25,13 @@ import (
 	"github.com/thanos-community/promql-engine/logicalplan"
 )
 
+func coqPin(ts *int64) string {
+	if ts == nil {
+		return "None"
+	}
+	return "(Some " + coqZ(*ts) + ")"
+}
+
 func quarterZ(v float64) (int64, bool) {
 	x := v * 4
 	if math.IsNaN(x) || math.IsInf(x, 0) || x != math.Trunc(x) || math.Abs(x) > 1e15 {
@@ -43,10 +50,25 @@ func (t *treeGen) sel() string {
 	if t.r.Intn(4) == 0 {
 		s = t.g.freshSelector()
 	}
+	if t.r.Intn(6) == 0 {
+		s += t.pin()
+	}
 	if t.r.Intn(5) == 0 {
 		s += " offset " + pick(t.r, []string{"30s", "1m", "-30s", "17s"})
 	}
 	return s
+}
+
+// an @ modifier: a time around the window, or start()/end()
+func (t *treeGen) pin() string {
+	switch t.r.Intn(4) {
+	case 0:
+		return " @ start()"
+	case 1:
+		return " @ end()"
+	}
+	w := t.g.w
+	return fmt.Sprintf(" @ %.3f", float64(w.Start-60_000+t.r.Int63n(w.End-w.Start+120_001))/1000)
 }
 
 func (t *treeGen) labelList(nonEmpty bool) string {
@@ -79,8 +101,11 @@ func (t *treeGen) rangeLeaf() string {
 	}
 	d := pick(t.r, []string{"30s", "1m", "2m", "45s", "5m", "17s", "1s", "90s"})
 	off := ""
+	if t.r.Intn(6) == 0 {
+		off = t.pin()
+	}
 	if t.r.Intn(4) == 0 {
-		off = " offset " + pick(t.r, []string{"30s", "1m", "-30s", "17s"})
+		off += " offset " + pick(t.r, []string{"30s", "1m", "-30s", "17s"})
 	}
 	return fmt.Sprintf("%s(%s[%s]%s)", pick(t.r, names), s, d, off)
 }
@@ -182,15 +207,15 @@ func translateTree(e parser.Expr, c *Case, u *Universe) (string, bool) {
 	switch n := e.(type) {
 	case *parser.ParenExpr:
 		return translateTree(n.Expr, c, u)
+	case *parser.StepInvariantExpr:
+		t, ok := translateTree(n.Expr, c, u)
+		return fmt.Sprintf("(JInvariant %s)", t), ok
 	case *parser.VectorSelector:
-		if n.Timestamp != nil || n.StartOrEnd != 0 {
-			return "", false
-		}
 		ls, ss, ok := translateSeries(n, c, u)
 		if !ok {
 			return "", false
 		}
-		return fmt.Sprintf("(JLeaf %s %s %s)", ls, ss, coqZ(n.OriginalOffset.Milliseconds())), true
+		return fmt.Sprintf("(JLeaf %s %s %s %s)", ls, ss, coqZ(n.OriginalOffset.Milliseconds()), coqPin(n.Timestamp)), true
 	case *parser.UnaryExpr:
 		if n.Op != parser.SUB {
 			return translateTree(n.Expr, c, u)
@@ -204,15 +229,15 @@ func translateTree(e parser.Expr, c *Case, u *Universe) (string, bool) {
 				return "", false
 			}
 			vs, ok := ms.VectorSelector.(*parser.VectorSelector)
-			if !ok || vs.Timestamp != nil || vs.StartOrEnd != 0 {
+			if !ok {
 				return "", false
 			}
 			ls, ss, ok := translateSeries(vs, c, u)
 			if !ok {
 				return "", false
 			}
-			return fmt.Sprintf("(JRange %s (zrange %d%%N) %s %s %s %s)", coqBool(n.Func.Name == "last_over_time"), code,
-				coqZ(ms.Range.Milliseconds()), ls, ss, coqZ(vs.OriginalOffset.Milliseconds())), true
+			return fmt.Sprintf("(JRange %s (zrange %d%%N) %s %s %s %s %s)", coqBool(n.Func.Name == "last_over_time"), code,
+				coqZ(ms.Range.Milliseconds()), ls, ss, coqZ(vs.OriginalOffset.Milliseconds()), coqPin(vs.Timestamp)), true
 		}
 		if n.Func.Name != "abs" || len(n.Args) != 1 {
 			return "", false
@@ -300,7 +325,6 @@ func cmdTreeCases(args []string) {
 	o := genOptsFor("selector")
 	o.MaxSeries = 10
 	o.IntValues = true
-	o.NoAt = true
 	var cases []string
 	stats := map[string]int{}
 	for id := *from; id < *to; id++ {
